@@ -1213,3 +1213,91 @@ def textsig(repo, templates):
         raise AnalysisError(f"only {res.instances} text-output methods found in the virtual-field templates")
     res.analysed = [TEMPLATES]
     return res
+
+
+def constpresent(repo, templates):
+    """R-CONSTPRESENT (C01): a template whose text hard-codes `has_${name}()` as `Maybe<bool>(true)` states that the field is
+    always present.  The generator may select such a template only under a condition that implies the field's existence
+    condition is the constant *true*: a conjunct that evaluates it (`ir_util.constant_value(<field>.existence_condition)`),
+    not merely `.is_constant` -- `if false: let x = 7` is constant too."""
+    res = RuleResult("R-CONSTPRESENT")
+    hard = set()
+    for name, t in templates.templates.items():
+        if re.search(r"has_\$\{name\}\s*\(\s*\)\s*\{\s*return\s+::emboss::support::Maybe<(/\*\*/)?\s*bool>\(true\)", " ".join(t["text"].split())):
+            hard.add(name)
+    if not hard:
+        raise AnalysisError("no template hard-codes has_${name}() == true any more (constant virtual fields restructured?)")
+    hg = repo.mod("compiler/back_end/cpp/header_generator.py")
+    for f in hg.funcs.values():
+        for n in walk_no_nested_funcs(f.node):
+            if not isinstance(n, ast.If):
+                continue
+            picked = {a.attr for st in n.body for a in ast.walk(st)
+                      if isinstance(a, ast.Attribute) and isinstance(a.value, ast.Name) and a.value.id == "_TEMPLATES" and a.attr in hard}
+            if not picked:
+                continue
+            res.instances += 1
+            conj = n.test.values if isinstance(n.test, ast.BoolOp) and isinstance(n.test.op, ast.And) else [n.test]
+            ok = any(isinstance(c, ast.Call) and (call_name(c) or "").split(".")[-1] == "constant_value"
+                     and "existence_condition" in ast.unparse(c) for c in conj)
+            if not ok:
+                res.add(f"{hg.rel}|{f.qualname}|{sorted(picked)[0]}", f"{f.qualname} selects {sorted(picked)} (has_x() hard-coded to true) under "
+                        f"`{ast.unparse(n.test)[:100]}`, which does not require the existence condition to be the constant true: "
+                        "a field under `if false:` reports has_x() == true and is printed in text output", hg.rel, n.lineno, f.qualname)
+    if res.instances < 1 and not res.findings:
+        raise AnalysisError("header_generator: the selection of the constant-virtual-field templates was not found")
+    res.analysed = [hg.rel, TEMPLATES]
+    return res
+
+
+def textpair(repo, templates, facts=None):
+    """R-TEXTPAIR (C06/C07): a write-through virtual field can have an integer, boolean or enum type.  Its view prints
+    itself with Write<Kind>ViewToTextStream chosen by the type, so UpdateFromTextStream must parse with the reader of the
+    same kind: the write template may not hard-wire one Read*FromTextStream, the generator's kind->reader table covers
+    every kind the writer chain covers, and each entry names the reader of *that* kind (an existing runtime function).
+    A hard-wired integer reader does not compile for enum fields and cannot re-read `true` for Flag fields."""
+    res = RuleResult("R-TEXTPAIR")
+    name = "structure_single_virtual_field_write_methods"
+    if name not in templates.templates:
+        raise AnalysisError(f"template {name} vanished")
+    text = templates.templates[name]["text"]
+    res.instances += 1
+    um = re.search(r"UpdateFromTextStream\s*\([^)]*\)\s*\{(.*?)\n    \}", text, re.S)
+    if not um:
+        raise AnalysisError(f"{name}: UpdateFromTextStream not found")
+    hard = re.findall(r"\bRead\w+FromTextStream\b", um.group(1))
+    ph = re.findall(r"\$\{(\w+)\}\s*\(", um.group(1))
+    if hard or not ph:
+        res.add(f"{TEMPLATES}|{name}|hard-wired", f"the write-through virtual field template parses text with a fixed `{(hard or ['?'])[0]}`: "
+                "enum-typed fields do not compile ('cannot convert int to <Enum>') and Flag-typed ones cannot read `true`",
+                TEMPLATES, 0, name)
+    hg = repo.mod("compiler/back_end/cpp/header_generator.py")
+    KIND = {"integer": "Integer", "boolean": "Boolean", "enumeration": "Enum"}
+    writer_kinds, table = set(), None
+    for f in hg.funcs.values():
+        src = ast.unparse(f.node)
+        if name not in src:
+            continue
+        for n in walk_no_nested_funcs(f.node):
+            if isinstance(n, ast.Compare) and "which_type" in ast.unparse(n.left) and isinstance(n.comparators[0], ast.Constant):
+                writer_kinds.add(n.comparators[0].value)
+            if isinstance(n, ast.Dict) and n.keys and all(isinstance(k, ast.Constant) and k.value in KIND for k in n.keys) \
+                    and all(isinstance(v, ast.Constant) and "FromTextStream" in str(v.value) for v in n.values):
+                table = ({k.value: v.value for k, v in zip(n.keys, n.values)}, n.lineno, f)
+    writer_kinds &= set(KIND)
+    if not hard and table is None:
+        raise AnalysisError("header_generator: the kind -> text reader table for write-through virtual fields was not found")
+    if table:
+        tb, line, f = table
+        for k in sorted(writer_kinds | set(tb)):
+            res.instances += 1
+            if k not in tb:
+                res.add(f"{hg.rel}|{f.qualname}|reader|{k}", f"no text reader for write-through virtual fields of kind {k} (the writer "
+                        "chain handles it)", hg.rel, line, f.qualname)
+            elif KIND[k] not in tb[k] or not tb[k].startswith("Read"):
+                res.add(f"{hg.rel}|{f.qualname}|reader|{k}", f"kind {k} is parsed with `{tb[k]}`, which is not the {KIND[k]} reader",
+                        hg.rel, line, f.qualname)
+            elif facts is not None and not any(fn.name == tb[k] for fn in facts.functions):
+                res.add(f"{hg.rel}|{f.qualname}|reader|{k}|missing", f"`{tb[k]}` does not exist in the runtime", hg.rel, line, f.qualname)
+    res.analysed = [TEMPLATES, hg.rel]
+    return res
